@@ -7,6 +7,7 @@ import (
 	"os"
 	"strings"
 	"testing"
+	"time"
 	"unicode/utf8"
 
 	"pgregory.net/rapid"
@@ -463,7 +464,7 @@ var worker *wk.Client
 
 func getWorker() *wk.Client {
 	if worker == nil {
-		worker = wk.New(wk.Options{})
+		worker = wk.New(wk.Options{CPULimit: 90 * time.Second}) // generous: the machine is shared; a budget hit is inconclusive
 	}
 	return worker
 }
